@@ -6,6 +6,7 @@ import (
 	"fmt"
 	"sort"
 
+	"github.com/EliCDavis/polyform/math/sample"
 	"github.com/EliCDavis/polyform/modeling"
 	"github.com/EliCDavis/polyform/modeling/marching"
 	"github.com/EliCDavis/vector/vector3"
@@ -71,6 +72,18 @@ func (mr March) Run(c choice.Chooser, opt sim.Options) sim.Result {
 	w := []int{2, 3, 4, 16, 1}[c.Intn("workers", 5)]
 	// 1..3 shapes; library shapes so that the surface is a real one
 	canvas := marching.NewMarchingCanvas(cpu)
+	// the attribute the surface is marched on (MarchParallel is shorthand
+	// for the Position attribute)
+	attr := modeling.PositionAttribute
+	if c.Intn("attr", 3) == 2 {
+		attr = "density"
+	}
+	add := func(f marching.Field) {
+		if attr != modeling.PositionAttribute {
+			f.Float1Functions = map[string]sample.Vec3ToFloat{attr: f.Float1Functions[modeling.PositionAttribute]}
+		}
+		canvas.AddField(f)
+	}
 	var shapes []string
 	ns := 1 + c.Intn("shapes", 2)
 	maxBlocks := 2
@@ -83,7 +96,7 @@ func (mr March) Run(c choice.Chooser, opt sim.Options) sim.Result {
 		w = 2 + c.Intn("manyblocks:workers", 2)
 		nb := 5 + c.Intn("manyblocks:n", 6)
 		length := float64(100*nb-60) / cpu
-		canvas.AddField(marching.Line(vector3.New(10/cpu, 30/cpu, 30/cpu), vector3.New(10/cpu+length, 30/cpu, 30/cpu), 3/cpu, 1))
+		add(marching.Line(vector3.New(10/cpu, 30/cpu, 30/cpu), vector3.New(10/cpu+length, 30/cpu, 30/cpu), 3/cpu, 1))
 		shapes = append(shapes, fmt.Sprintf("long-line %d blocks", nb))
 		ns = 0
 		res.Count("probe:more-blocks-than-workers-and-buffers", 1)
@@ -104,20 +117,20 @@ func (mr March) Run(c choice.Chooser, opt sim.Options) sim.Result {
 		r := float64(2+c.Intn("shape:size", 4)) / cpu
 		switch c.Intn("shape:kind", 4) {
 		case 0:
-			canvas.AddField(marching.Sphere(ctr, r, 1))
+			add(marching.Sphere(ctr, r, 1))
 			shapes = append(shapes, fmt.Sprintf("sphere c=%v r=%v", ctr, r))
 		case 1:
-			canvas.AddField(marching.Box(ctr, vector3.New(r, r*1.5, r*0.7), 1))
+			add(marching.Box(ctr, vector3.New(r, r*1.5, r*0.7), 1))
 			shapes = append(shapes, fmt.Sprintf("box c=%v r=%v", ctr, r))
 		case 2:
-			canvas.AddField(marching.Line(ctr, ctr.Add(vector3.New(3*r, r, 0)), r/2, 1))
+			add(marching.Line(ctr, ctr.Add(vector3.New(3*r, r, 0)), r/2, 1))
 			shapes = append(shapes, fmt.Sprintf("line c=%v r=%v", ctr, r))
 		default:
 			// a field with no surface at the cutoff: far away from zero
 			sp := marching.Sphere(ctr, r, 1)
 			f := sp.Float1Functions[modeling.PositionAttribute]
 			sp.Float1Functions[modeling.PositionAttribute] = func(v vector3.Float64) float64 { return f(v) + 1000 }
-			canvas.AddField(sp)
+			add(sp)
 			shapes = append(shapes, fmt.Sprintf("no-surface c=%v r=%v", ctr, r))
 		}
 	}
@@ -127,13 +140,17 @@ func (mr March) Run(c choice.Chooser, opt sim.Options) sim.Result {
 	}
 	_ = maxBlocks
 	cutoff := -float64(c.Intn("cutoff", 3)) * 0.1 / cpu
-	desc := fmt.Sprintf("MarchParallel cubesPerUnit=%v workers=%d cutoff=%v blocks=%d shapes=%v", cpu, w, cutoff, nblocks, shapes)
+	desc := fmt.Sprintf("MarchParallel attr="+attr+" cubesPerUnit=%v workers=%d cutoff=%v blocks=%d shapes=%v", cpu, w, cutoff, nblocks, shapes)
 
 	var want []string
 	var seqPanic any
 	func() {
 		defer func() { seqPanic = recover() }()
-		want = triKeys(canvas.March(cutoff), modeling.PositionAttribute)
+		if attr == modeling.PositionAttribute {
+			want = triKeys(canvas.March(cutoff), attr)
+		} else {
+			want = triKeys(canvas.MarchOnAttribute(attr, cutoff), attr)
+		}
 	}()
 
 	workers = w
@@ -141,9 +158,14 @@ func (mr March) Run(c choice.Chooser, opt sim.Options) sim.Result {
 	var got []string
 	s := detsched.New(c)
 	s.Go("caller", func() {
-		r := canvas.MarchParallel(cutoff)
+		var r modeling.Mesh
+		if attr == modeling.PositionAttribute {
+			r = canvas.MarchParallel(cutoff)
+		} else {
+			r = canvas.MarchOnAttributeParallel(attr, cutoff)
+		}
 		detsched.Yield("caller:returned", 0)
-		got = triKeys(r, modeling.PositionAttribute)
+		got = triKeys(r, attr)
 	})
 	out := s.Run()
 	detail := func() map[string]any {
